@@ -26,7 +26,7 @@ ASSUMPTIONS = [
     'because which security blocks each fragment must carry is not stated by the property',
 ]
 DECIDING = ['bp.app.fragment:Fragment._create', 'bp.agent:Agent.send_bundle', 'bp.agent:Agent._do_tx_step']
-REQUIRED_OBS = ['sends', 'fragmenting_sends', 'fragments_checked', 'unchanged_sends_checked', 'impossible_sends', 'unnumbered_sends', 'resends_checked']
+REQUIRED_OBS = ['stack_fragmentations_checked', 'sends', 'fragmenting_sends', 'fragments_checked', 'unchanged_sends_checked', 'impossible_sends', 'unnumbered_sends', 'resends_checked']
 
 NODE = 'dtn://me/'
 
@@ -41,6 +41,8 @@ def cases(tier, seed):
         out.append(dict(id='big-%d' % idx, kind='big', seed=seed * 101 + idx))
     for idx in range(600 if thorough else 16):
         out.append(dict(id='rand-%d' % idx, kind='rand', seed=seed * 7001 + idx, count=60 if thorough else 25))
+    from vf import stackcases  # pylint: disable=import-outside-toplevel
+    stackcases.add_cases(out, tier, seed)
     return out
 
 
@@ -314,6 +316,9 @@ def _collect(problems, detail, violations):
 
 
 def run_case(case):
+    if case.get('kind') == 'stack':
+        from vf import stackcases  # pylint: disable=import-outside-toplevel
+        return stackcases.run_block(PROPERTY_ID, case)
     obs = dict(sends=0, fragmenting_sends=0, fragments_checked=0, unchanged_sends_checked=0, impossible_sends=0, clockless_sends=0)
     violations = []
     classes = set()
